@@ -10,6 +10,7 @@ per key; ids are fresh). It is what makes "write the object back" and "map over 
 import Gk.Gen.Inmemory
 import Gk.Props.TieDef
 import Gk.Proofs.MemInv
+import Gk.Proofs.ByCreated
 namespace Gk.Tie
 open Gk Gk.Gen Gk.Gen.Inmemory
 
@@ -328,6 +329,158 @@ theorem tie_mem_GetNext (m : Mem) (now : Time) (nid : String) (ctx : Ctx)
       have h0' : (genMem m now nid).mem.heap.arr[0]? = some id := h0
       simp only [hsz, Bool.false_eq_true, if_false, h0', omapGet_some hlk, hlk, Def.Task.Clone, Go.maps_Clone, Go.nil]
 
+
+/-! ### Find -/
+
+theorem foldl_filter_append {α β : Type} (p : α → Bool) (f : α → β) (xs : List α) (acc : List β) :
+    List.foldl (fun out x => if p x = true then out ++ [f x] else out) acc xs = acc ++ (xs.filter p).map f := by
+  induction xs generalizing acc with
+  | nil => simp
+  | cons x xs ih => by_cases hp : p x = true <;> simp [hp, ih]
+
+@[simp] theorem toGen_CreatedAt (c : Gk.Task) : (toGen c).CreatedAt = c.createdAt := rfl
+
+theorem insert_map_toGen (t : Gk.Task) (xs : List Gk.Task) :
+    Go.insertByCmp (fun (a b : Def.Task) => a.CreatedAt.Compare b.CreatedAt) (toGen t) (xs.map toGen) =
+      (insCreated t xs).map toGen := by
+  induction xs with
+  | nil => rfl
+  | cons x xs ih =>
+    have hc : ((toGen t).CreatedAt.Compare (toGen x).CreatedAt ≤ 0) ↔ t.createdAt ≤ x.createdAt := by
+      simp only [toGen_CreatedAt, Int.Compare, gt_iff_lt]; exact cmp_le _ _
+    simp only [List.map_cons, Go.insertByCmp, insCreated]
+    by_cases h : t.createdAt ≤ x.createdAt
+    · rw [if_pos (hc.2 h), if_pos h]; rfl
+    · rw [if_neg (fun h' => h (hc.1 h')), if_neg h, List.map_cons, ih]
+
+theorem sort_map_toGen (xs : List Gk.Task) :
+    Go.slices_SortStableFunc (xs.map toGen) (fun (a b : Def.Task) => a.CreatedAt.Compare b.CreatedAt) =
+      (byCreated xs).map toGen := by
+  induction xs with
+  | nil => rfl
+  | cons x xs ih =>
+    simp only [Go.slices_SortStableFunc, List.map_cons, List.foldr_cons, byCreated] at ih ⊢
+    rw [ih, insert_map_toGen]
+
+/-- inserting into a sorted list an element that is not later than its head puts it in front -/
+theorem insCreated_front (t : Gk.Task) (xs : List Gk.Task) (h : ∀ x ∈ xs, t.createdAt ≤ x.createdAt) :
+    insCreated t xs = t :: xs := by
+  cases xs with
+  | nil => rfl
+  | cons x xs => simp [insCreated, h x (by simp)]
+
+theorem insCreated_filter (p : Gk.Task → Bool) (t : Gk.Task) (xs : List Gk.Task) (hs : CreatedSorted xs) :
+    (insCreated t xs).filter p = if p t then insCreated t (xs.filter p) else xs.filter p := by
+  induction xs with
+  | nil => by_cases hp : p t = true <;> simp [insCreated, hp]
+  | cons x xs ih =>
+    have hs' : CreatedSorted xs := (List.pairwise_cons.1 hs).2
+    have hx_le : ∀ y ∈ xs, x.createdAt ≤ y.createdAt := (List.pairwise_cons.1 hs).1
+    simp only [insCreated]
+    by_cases h : t.createdAt ≤ x.createdAt
+    · by_cases hp : p t = true <;> by_cases hx : p x = true <;> simp [h, hp, hx, insCreated]
+      -- p t, ¬ p x: t goes in front of the filtered tail, all of whose elements are not earlier than x
+      rw [insCreated_front]
+      intro y hy
+      exact Int.le_trans h (hx_le y (List.mem_filter.1 hy).1)
+    · by_cases hp : p t = true <;> by_cases hx : p x = true <;> simp [h, hp, hx, insCreated, ih hs']
+
+/-- the stable sort by creation time commutes with filtering -/
+theorem byCreated_filter (p : Gk.Task → Bool) (xs : List Gk.Task) :
+    byCreated (xs.filter p) = (byCreated xs).filter p := by
+  induction xs with
+  | nil => rfl
+  | cons x xs ih =>
+    by_cases hp : p x = true
+    · simp [List.filter_cons, hp, byCreated, ih, insCreated_filter _ _ _ (byCreated_sorted xs)]
+    · simp [List.filter_cons, hp, byCreated, ih, insCreated_filter _ _ _ (byCreated_sorted xs)]
+
+theorem findLoop_filter (p : Gk.Task → Bool) (xs : List Gk.Task) (o l : Int) :
+    findLoop p xs o l = findLoop (fun _ => true) (xs.filter p) o l := by
+  induction xs generalizing o l with
+  | nil => rfl
+  | cons x xs ih =>
+    by_cases hp : p x = true
+    · simp only [findLoop, hp, List.filter_cons, if_true]
+      split
+      · exact ih _ _
+      · split
+        · rfl
+        · rw [ih]
+    · simp only [findLoop, hp, List.filter_cons]
+      simpa using ih o l
+
+abbrev PageAcc := Bool × Int × Int × List Def.Task
+
+/-- the step of `Find`'s paging loop, as the generated code has it -/
+@[reducible] def PageStep (g : PageAcc → Def.Task → PageAcc) : Prop :=
+  ∀ (b : Bool) (o l : Int) (out : List Def.Task) (task : Def.Task),
+    g (b, o, l, out) task =
+      if b = true then (b, o, l, out)
+      else if (o != 0) = true then (b, o - 1, l, out)
+      else if (l == 0) = true then (true, o, l, out)
+      else if decide (l > 0) = true then (b, o, l - 1, out ++ [task.Clone])
+      else (b, o, l, out ++ [task.Clone])
+
+theorem paging_done (g : PageAcc → Def.Task → PageAcc) (hg : PageStep g) (ys : List Def.Task) (o l : Int)
+    (out : List Def.Task) : List.foldl g (true, o, l, out) ys = (true, o, l, out) := by
+  induction ys with
+  | nil => rfl
+  | cons y ys ih =>
+    have h := hg true o l out y
+    simp only [if_true] at h
+    simp only [List.foldl_cons, h, ih]
+
+/-- the paging loop of `Find` (offset-- / continue, limit == 0 → break, limit--) = `findLoop` -/
+theorem paging_fold (g : PageAcc → Def.Task → PageAcc) (hg : PageStep g) (xs : List Gk.Task) (o l : Int)
+    (out : List Def.Task) :
+    (List.foldl g (false, o, l, out) (xs.map toGen)).2.2.2 =
+      out ++ (findLoop (fun _ => true) xs o l).map toGen := by
+  induction xs generalizing o l out with
+  | nil => simp [findLoop]
+  | cons x xs ih =>
+    have h := hg false o l out (toGen x)
+    simp only [Bool.false_eq_true, if_false] at h
+    simp only [List.map_cons, List.foldl_cons, h, findLoop, if_true]
+    by_cases ho : o = 0
+    · subst ho
+      simp only [bne_self_eq_false, Bool.false_eq_true, if_false]
+      by_cases hl : l = 0
+      · subst hl
+        simp [paging_done g hg]
+      · have hl' : (l == 0) = false := by simpa using hl
+        simp only [hl', Bool.false_eq_true, if_false]
+        have hclone : (toGen x).Clone = toGen x := rfl
+        by_cases hpos : l > 0
+        · simp only [hpos, decide_true, if_true]
+          rw [ih]
+          simp [hclone]
+        · simp only [hpos, decide_false, Bool.false_eq_true, if_false]
+          rw [ih]
+          simp [hclone]
+    · have ho' : (o != 0) = true := by simpa using ho
+      simp only [ho', if_true]
+      exact ih _ _ _
+
+theorem tie_mem_Find (m : Mem) (now : Time) (nid : String) (ctx : Ctx) (Q : Def.TaskQueryParam) (o l : Int) :
+    InMemoryRepository.Find (genMem m now nid) ctx Q o l =
+      ((findLoop ((absQ Q).normalize true).matches (byCreated m.tasks) o l).map toGen, none) := by
+  simp only [InMemoryRepository.Find, Go.rangeFold, GoMem.omapPairs, genMem, List.foldl_map]
+  -- first loop: the matching tasks, oldest-inserted first
+  have h1 := foldl_filter_append (fun t : Gk.Task => Q.Normalize.Match (toGenTask t)) toGenTask m.tasks []
+  simp only [List.nil_append] at h1
+  rw [h1]
+  have hp : (fun t : Gk.Task => Q.Normalize.Match (toGenTask t)) = ((absQ Q).normalize true).matches := by
+    funext t; rw [toGenTask_eq, tie_Query_Match, tie_Query_Normalize]
+  rw [hp]
+  have hm : List.map toGenTask (List.filter ((absQ Q).normalize true).matches m.tasks) =
+      List.map toGen (List.filter ((absQ Q).normalize true).matches m.tasks) := rfl
+  rw [hm, sort_map_toGen, byCreated_filter, findLoop_filter]
+  refine Prod.ext ?_ rfl
+  show (List.foldl _ (false, o, l, []) _).2.2.2 = _
+  rw [paging_fold]
+  · simp
+  · intro b o l out task; rfl
 
 /-! ### Save / Load (repository/inmemory/io.go) -/
 
